@@ -26,6 +26,7 @@ type interp struct {
 	ij     map[string]Value
 	hasIJ  bool
 	mark   bool // wrap the output of every msg in « »
+	oblig  []string // obligatory print directives: applied, without arguments, after every print's own
 	depth  int
 	steps  int
 	res    *Result
@@ -46,9 +47,16 @@ func RenderMarked(p *Program, fq string, data map[string]Value, ij map[string]Va
 	return render(p, fq, data, ij, hasIJ, true)
 }
 
-func render(p *Program, fq string, data map[string]Value, ij map[string]Value, hasIJ bool, mark bool) (res Result) {
+// RenderObligatory renders like Render under a configuration whose obligatory print directives are the
+// given names (applied in that order after each print command's own directives; a name that is not
+// registered makes the print fail).
+func RenderObligatory(p *Program, fq string, data map[string]Value, ij map[string]Value, hasIJ bool, names []string) (res Result) {
+	return render(p, fq, data, ij, hasIJ, false, names...)
+}
+
+func render(p *Program, fq string, data map[string]Value, ij map[string]Value, hasIJ bool, mark bool, oblig ...string) (res Result) {
 	main := &strings.Builder{}
-	in := &interp{p: p, out: main, main: main, ij: ij, hasIJ: hasIJ, res: &res, mark: mark}
+	in := &interp{p: p, out: main, main: main, ij: ij, hasIJ: hasIJ, res: &res, mark: mark, oblig: oblig}
 	defer func() {
 		res.Out = main.String()
 		if r := recover(); r != nil {
@@ -320,6 +328,16 @@ func (in *interp) print(c *Cmd) {
 		}
 		var cancel bool
 		v, cancel = ApplyDirective(d.Name, v, args)
+		if cancel {
+			escape = false
+		}
+	}
+	for _, name := range in.oblig {
+		if name == "verifNoSuch" {
+			valueless("obligatory print directive that is not registered")
+		}
+		var cancel bool
+		v, cancel = ApplyDirective(name, v, nil)
 		if cancel {
 			escape = false
 		}
